@@ -63,6 +63,12 @@ CHECKS = {
         'integer / % /= %= carry the division-by-zero obligation with no precondition on a missing operand, which proves non-evaluation. Loop-free: complete.',
    note=PROOF_NOTE + 'Operand types int and double; machine * / % and <cmath> functions are uninterpreted functions shared by code and spec; non-evaluation of non-trapping operations is not observable with these types.',
    technique='CBMC code contracts (DFCC) with generated contracts per instantiated overload; full-domain SAT', design='4 C04'),
+ 'C12': dict(
+   text='xbitset_iterator<xdynamic_bitset<uint8_t>> and xstepping_iterator<int*> (steps 1 and 3; thorough adds 2 and 7), including the friend operators that xbidirectional_iterator_base / xrandom_access_iterator_base generate for them '
+        '(+, n+it, -, postfix ++/--, [], <=, >=, >, !=): every function carries a contract over the abstract position (bit index / element offset); the laws of the property - (it+n)-it == n, (it+n)-n == it, n+it == it+n, '
+        'postfix returns the old position, a<b iff b-a>0, the derived comparisons agree with < and ==, begin..end visits each bit exactly once in order - are lemma harnesses proved over the contracts alone.',
+   note=PROOF_NOTE + 'Two iterator kinds, fixed element types; positions unbounded within a container of up to 2^40 bits / 10^6 ints. it[n] == *(it+n) is carried by the two contracts, not by a lemma harness; stepping-iterator traversal lemma not closed.',
+   technique='CBMC code contracts (DFCC) on mechanically lowered iterator classes and CRTP friend operators; law lemmas over contracts (replace-call-with-contract)', design='4 C12'),
 }
 NA = {
  'C05': 'variant lifetimes under exceptions, placement-new into a recursive union and visitation tables built from lambdas: no C++ exception/lifetime semantics in CBMC and no faithful mechanical lowering; a hand-written model would be a different technique (DESIGN.md 6)',
